@@ -68,7 +68,7 @@ def run(ctx):
 
 
 def replay(ctx, case):
-  if case['case'].get('kind') == 'metadata-object':
+  if case['case'].get('kind') in ('metadata-object', 'metadata-delta'):
     import c10_metadata
     return c10_metadata.replay(ctx, case['case'])
   if case['case'].get('kind') == 'namespace':
